@@ -29,6 +29,23 @@ func main() {
 		nativeDev(os.Args[2])
 		return
 	}
+	if len(os.Args) >= 3 && os.Args[1] == "--elkjob" {
+		// developer aid: run one elkrun.Job given as JSON (fields src, cfg, abort_check, cancel_ms, run_ms, ...)
+		b, err := os.ReadFile(os.Args[2])
+		if err != nil {
+			fmt.Fprintln(os.Stderr, err)
+			os.Exit(2)
+		}
+		var j elkrun.Job
+		if err := json.Unmarshal(b, &j); err != nil {
+			fmt.Fprintln(os.Stderr, err)
+			os.Exit(2)
+		}
+		r := elkrun.Run(&j)
+		out, _ := json.MarshalIndent(r, "", " ")
+		fmt.Println(string(out))
+		return
+	}
 	if len(os.Args) >= 3 && os.Args[1] == "--elk" {
 		// developer aid: run one Elk source file through elkrun in this process and print the result
 		b, err := os.ReadFile(os.Args[2])
